@@ -14,6 +14,6 @@ def run(tier, seed):
                               'largest element of fields whose order lies just below/above a power of 256; an unpickled element has the identical (cached) class, is ==, has '
                               'the same hash and computes with the original; unsigned_() is the reduced value, signed_() is the unique representative in (-p/2, p/2], '
                               '__int__ follows is_signed (checked on classes of its own for both settings); int() of an extension field element is its base-p encoding.',
-                  assumptions=['GF((p, n, w)): 0 < w < p in pickle_prime; w outside range(p) (which pGF reduces itself) in the separate entry pickle_prime_unreduced_root',
+                  assumptions=['GF((p, n, w)): 0 < w < p in pickle_prime; w outside range(p) is outside the domain',
                                'bounded: nothing is claimed about fields or lists outside the stated domain'],
                   trusted_base=['CPython 3.12 pickle, int.to_bytes/from_bytes'])
